@@ -2,7 +2,7 @@
     Only statements, each closed by [exact <lemma>] and followed by
     [Print Assumptions]. *)
 From Coq Require Import List ZArith.
-From Webp Require Import Anim.Blend Anim.Canvas Anim.AnimDec Anim.AnimDecProof Anim.AnimDecOps.
+From Webp Require Import Anim.Blend Anim.Canvas Anim.AnimDec Anim.AnimDecProof Anim.AnimDecOps Anim.AnimDecLoops.
 Open Scope Z_scope.
 
 (** For every canvas size, every frame list (any offsets in the int64 range —
@@ -15,6 +15,14 @@ Theorem C09_animdec_refines_spec : forall W H fs,
   impl_run W H fs = spec_run W H fs.
 Proof. exact animdec_refines_spec. Qed.
 Print Assumptions C09_animdec_refines_spec.
+
+(** The same with the loops as the Go code runs them: compositeFrame's and
+    fillRect's nested in-place loops over the clipped rectangle (NRGBAAt /
+    SetNRGBA on the live canvas), clearCanvas / copy, the key-frame shortcut. *)
+Theorem C09_animdec_loops_refine_spec : forall W H fs,
+  wf_dims W H -> Forall wf_frame fs -> impl_run_loops W H fs = spec_run W H fs.
+Proof. exact animdec_loops_refine_spec. Qed.
+Print Assumptions C09_animdec_loops_refine_spec.
 
 (** Histories: for every interleaving of NextFrame and Reset calls, every
     snapshot handed out is the specification's canvas for the frame index it was
